@@ -265,6 +265,14 @@ func runC01(c *Ctx) {
 				k++
 			}
 		}
+		// … and one event whose tag section makes the line longer than any read buffer the client may use
+		long := &girc.Event{Command: "PRIVMSG", Params: []string{"#c", strings.Repeat("long text ", 30+i)}, Source: &girc.Source{Name: "n", Ident: "u", Host: "h"}, Tags: girc.Tags{}}
+		if long.Tags.Set("+example/big", strings.Repeat("v", 3900+c.Rng.Intn(150))) == nil {
+			in[fmt.Sprintf("l%d", k)] = string(long.Bytes())
+			k++
+			in[fmt.Sprintf("l%d", k)] = ":n!u@h PRIVMSG #c :the line after the long one"
+			k++
+		}
 		in["n"] = fmt.Sprint(k)
 		c.run("wireparse", in)
 		r.Count("wire"+fmt.Sprint(in), true, "wire-trip")
@@ -539,6 +547,7 @@ func runC03(c *Ctx) {
 	runC03Helpers(c)
 	runC03SlowPeer(c)
 	runC03SendWire(c)
+	runC03Preamble(c)
 }
 
 func min(a, b int) int {
